@@ -9,9 +9,26 @@
      3  thriftgo exited 0 but a written .go file is not valid Go syntax (property oracle)
      4  thriftgo exited 0 but the generated packages do not type-check (property oracle)
      5  thriftgo exited 0 but wrote no Go file at all                  (property oracle)
-     9  model out of fuel *)
+     9  model out of fuel
+   ScopeCase: one Go package directory written by an accepted thriftgo run: the resolved IDL
+   files that were generated into it (astdump), the features the table-building code reads, the
+   answers of the real naming style (identify) and of LowerFirstRune for every string the model
+   asks about, and what go/parser finds DECLARED in the directory: package-level identifiers
+   (one entry per declaration), per type its fields, methods and interface methods with the
+   receiver / parameter / result names.  The model (Gen/Scope.v) recomputes every name table
+   and the comparison is by SETS per table:
+     1  a name table of the model and the declared identifiers disagree (correspondence);
+        sub-checks: model raised an error although thriftgo accepted; package-level identifiers;
+        members of a struct type; method names of a service; parameter names of a method
+     6  a package-level identifier is declared twice in one directory  (property oracle)
+     7  a struct type has two members (fields / methods) of one name   (property oracle)
+     8  a method has two receiver / parameter / result names alike     (property oracle)
+   Identifiers that templates compose without asking a name table are NOT MODELLED; they are
+   excluded from the set comparison by the rule [not_modelled] below (and only by it) but take
+   part in the oracles 6, 7, 8. *)
 From Coq Require Import List Arith Bool NArith.
-From Verif Require Import Base.Bytes Gen.Namespace.
+From Coq.Strings Require Import Byte String.
+From Verif Require Import Base.Bytes Gen.Namespace Idl.Ast Idl.AstUtil Gen.Scope.
 Import ListNotations.
 
 Inductive rename_kind := RUnderscore | RImport | RNumber.
@@ -21,10 +38,27 @@ Definition rename_of (k : rename_kind) : bytes -> nat -> bytes :=
 (* observed results: a name (Add/Get/ID) or a boolean (Reserve) *)
 Inductive obs := OName (n : bytes) | OBool (b : bool).
 
+
+(* ------------------------------------------------------------------ scope cases: observed side *)
+Record gofunc := GoFunc { gf_name : bytes; gf_recv : bytes; gf_params : list bytes; gf_results : list bytes }.
+(* gt_kind: 0 struct, 1 interface, 2 alias, 3 other *)
+Record gotype := GoType { gt_name : bytes; gt_kind : N; gt_fields : list bytes; gt_iface : list gofunc; gt_methods : list gofunc }.
+
+(* what the selected templates emit at all (from the option set; decides which table entries
+   must be found declared) *)
+Record tflags := TFlags {
+  tf_processor : bool;      (* client / processor / args / result code is generated (not template=slim, not no_processor) *)
+  tf_serdes : bool;         (* Read / Write / ReadFieldN / writeFieldN are generated *)
+  tf_slim : bool }.         (* template=slim: only types, constructors, getters, setters, String *)
+
 Inductive case :=
 | NsCase (k : rename_kind) (ops : list op) (outs : list obs)
          (final_ids : list (bytes * bytes))  (* (id, Get id) for every id used, asked at the end *)
-| BuildCase (exit0 parse_ok build_ok : bool) (go_files : N).
+| BuildCase (exit0 parse_ok build_ok : bool) (go_files : N)
+| ScopeCase (ft : features) (tf : tflags)
+            (identify_answers lower_first_answers : list (bytes * bytes))
+            (files : list file)
+            (idents : list bytes) (types : list gotype).
 
 Definition obs_eqb (v : outv) (o : obs) : bool :=
   match v, o with
@@ -46,6 +80,178 @@ Fixpoint dup_name (l : list (bytes * bytes)) : bool :=
   | (i, n) :: r => (negb (beqb n []) && existsb (fun p => beqb (snd p) n && negb (beqb (fst p) i)) r) || dup_name r
   end.
 
+
+(* ------------------------------------------------------------------ scope cases: comparison *)
+Definition memb (x : bytes) (l : list bytes) : bool := existsb (beqb x) l.
+Definition subsetb (a b : list bytes) : bool := forallb (fun x => memb x b) a.
+Definition minus (a b : list bytes) : list bytes := filter (fun x => negb (memb x b)) a.
+Fixpoint has_dup (l : list bytes) : bool :=
+  match l with [] => false | x :: r => memb x r || has_dup r end.
+Definition exported (n : bytes) : bool :=
+  match n with b :: _ => let c := Byte.to_N b in (N.leb 65 c && N.leb c 90)%bool | [] => false end.
+
+(* the answers of the real style functions; a question the harness did not answer shows up as a
+   name that cannot be declared *)
+Definition answer (tbl : list (bytes * bytes)) (raw : bytes) : bytes :=
+  match lookup raw tbl with Some v => v | None => x3f :: x3f :: raw end.
+
+Definition names_where (p : entry -> bool) (es : list entry) : list bytes := map e_name (filter p es).
+Definition in_table (t : table) (e : entry) : bool := table_eqb (e_table e) t.
+Definition owned_by (t : table) (k : kind) (e : entry) : bool := table_eqb (e_owner e) t && kind_eqb (e_kind e) k.
+Definition is_globalish (e : entry) : bool :=
+  match e_table e with TGlobals | TEnum _ => true | _ => false end.
+Definition name_owned (es : list entry) (t : table) (k : kind) : bytes :=
+  match filter (owned_by t k) es with e :: _ => e_name e | [] => [] end.
+
+(* --- package level --- *)
+(* table entries that the templates of the option set declare at package level *)
+Definition global_declared (tf : tflags) (e : entry) : bool :=
+  is_globalish e &&
+  match e_kind e with
+  | KService | KEnum | KEnumValue | KTypedef | KConstant => true
+  | KStructType | KNew => match e_owner e with TSynth _ _ _ => tf_processor tf | _ => true end
+  | KIds => match e_owner e with TSynth _ _ _ => tf_processor tf && tf_serdes tf | _ => tf_serdes tf end
+  | KClient | KProcessor => tf_processor tf
+  | _ => false   (* KTypedefNew: New<Alias> exists only for typedefs of local struct-likes; never required *)
+  end.
+
+(* NOT MODELLED package-level identifiers: composed inside templates from table names, without
+   asking a table.  [es] = the entries of one file. *)
+Definition sB (s : string) : bytes := B s.
+Definition struct_tables (es : list entry) : list table :=
+  map e_owner (filter (fun e => kind_eqb (e_kind e) KStructType) es).
+Definition derived_globals (es : list entry) : list bytes :=
+  (* <Type>_<Field>_DEFAULT *)
+  flat_map (fun t => let tn := name_owned es t KStructType in
+                     map (fun fn => tn ++ [x5f] ++ fn ++ sB "_DEFAULT")
+                         (names_where (fun e => in_table t e && kind_eqb (e_kind e) KField) es))
+           (struct_tables es) ++
+  (* New<Svc>Client, New<Svc>ClientFactory, New<Svc>ClientProtocol, New<Svc>Processor *)
+  flat_map (fun e => match e_kind e with
+                     | KClient => [sB "New" ++ e_name e; sB "New" ++ e_name e ++ sB "Factory"; sB "New" ++ e_name e ++ sB "Protocol"]
+                     | KProcessor => [sB "New" ++ e_name e]
+                     | KEnum => [e_name e ++ sB "FromString"; e_name e ++ sB "Ptr"]
+                     | _ => []
+                     end) es.
+Definition fixed_globals : list bytes := [sB "KitexUnusedProtection"; sB "ThriftGoUnusedProtection"].
+Definition not_modelled_global (model derived : list bytes) (n : bytes) : bool :=
+  negb (memb n model) &&
+  (negb (exported n) || memb n derived || is_prefix (sB "GetFileDescriptorFor") n || memb n fixed_globals).
+
+(* --- members of one struct type --- *)
+Definition member_declared (ft : features) (tf : tflags) (e : entry) : bool :=
+  match e_kind e with
+  | KField | KGetter => true
+  | KSetter => true
+  | KIsSet => true
+  | KReadField | KWriteField => tf_serdes tf
+  | KFieldDeepEqual => true
+  | KBuiltin => (beqb (e_name e) s_String) ||
+                ((beqb (e_name e) s_Read || beqb (e_name e) s_Write) && tf_serdes tf) ||
+                beqb (e_name e) s_Error || beqb (e_name e) s_DeepEqual ||
+                (beqb (e_name e) s_Carrying && negb (tf_slim tf))
+  | _ => false
+  end.
+(* NOT MODELLED members: written by templates under fixed names *)
+Definition fixed_members : list bytes :=
+  [sB "InitDefault"; sB "GetTypeDescriptor"; sB "GetDescriptor"; sB "Get_FieldMask"; sB "Set_FieldMask"; sB "Pass_FieldMask";
+   sB "BLength"; sB "FastAppend"; sB "FastRead"; sB "FastWrite"; sB "FastWriteNocopy"].
+Definition not_modelled_member (tn : bytes) (model : list bytes) (n : bytes) : bool :=
+  negb (memb n model) &&
+  (negb (exported n) || memb n fixed_members || beqb n (s_CountSetFields ++ tn)).
+
+Definition find_type (types : list gotype) (name : bytes) : option gotype :=
+  find (fun t => beqb (gt_name t) name) types.
+Definition find_func (fs : list gofunc) (name : bytes) : option gofunc :=
+  find (fun f => beqb (gf_name f) name) fs.
+
+(* disagreements of one file, as (sub-check, names) for the replay; [] = agreement.
+   sub-check 10 model error, 11 declared but in no table, 12 table entry not declared,
+   13 struct type missing, 14 member in no table, 15 member entry not declared,
+   16 service interface / method missing, 17 parameter names differ *)
+Definition scope_file_diff (ft : features) (tf : tflags) (es : list entry) (idents : list bytes) (types : list gotype)
+  : list (N * list bytes) :=
+  (* members *)
+  flat_map (fun t =>
+     let tn := name_owned es t KStructType in
+     let synth := match t with TSynth _ _ _ => true | _ => false end in
+     if synth && negb (tf_processor tf) then [] else
+     match find_type types tn with
+     | None => [(13%N, [tn])]
+     | Some gt =>
+       let model := names_where (in_table t) es in
+       let declared := gt_fields gt ++ map gf_name (gt_methods gt) in
+       let extra := filter (fun n => negb (memb n model) && negb (not_modelled_member tn model n)) declared in
+       let missing := minus (names_where (fun e => in_table t e && member_declared ft tf e) es) declared in
+       (if extra then [] else [(14%N, tn :: extra)]) ++ (if missing then [] else [(15%N, tn :: missing)])
+     end) (struct_tables es) ++
+  (* services *)
+  flat_map (fun e =>
+     match e_kind e, e_owner e with
+     | KService, TService i =>
+       match find_type types (e_name e) with
+       | None => [(16%N, [e_name e])]
+       | Some gt =>
+         let fns := filter (fun x => in_table (TService i) x) es in
+         (if subsetb (map e_name fns) (map gf_name (gt_iface gt)) && subsetb (map gf_name (gt_iface gt)) (map e_name fns)
+          then [] else [(16%N, e_name e :: map gf_name (gt_iface gt))]) ++
+         flat_map (fun fe =>
+            let model := names_where (fun x => in_table (e_owner fe) x && (kind_eqb (e_kind x) KParam || (kind_eqb (e_kind x) KLocal && negb (beqb (e_name x) s__result)))) es in
+            let chk (who : bytes) (with_recv : bool) (gf : gofunc) :=
+              let declared := (if with_recv then [gf_recv gf] else []) ++ gf_params gf ++ gf_results gf in
+              let model' := if with_recv then model else minus model [s_p] in
+              if subsetb declared model' && subsetb model' declared then [] else [(17%N, who :: e_name fe :: declared)] in
+            (match find_func (gt_iface gt) (e_name fe) with Some gf => chk (e_name e) false gf | None => [] end) ++
+            (if tf_processor tf then
+               match find_type types (name_owned es (TService i) KClient) with
+               | Some ct => match find_func (gt_methods ct) (e_name fe) with
+                            | Some gf => chk (gt_name ct) true gf
+                            | None => [(16%N, [gt_name ct; e_name fe])]
+                            end
+               | None => [(16%N, [name_owned es (TService i) KClient])]
+               end
+             else [])) fns
+       end
+     | _, _ => []
+     end) es.
+
+Definition scope_dir_diff (ft : features) (tf : tflags) (ess : list (list entry)) (idents : list bytes) (types : list gotype)
+  : list (N * list bytes) :=
+  let all := List.concat ess in
+  let model := names_where is_globalish all in
+  let derived := flat_map derived_globals ess in
+  let extra := filter (fun n => negb (memb n model) && negb (not_modelled_global model derived n)) idents in
+  let missing := minus (names_where (global_declared tf) all) idents in
+  (if extra then [] else [(11%N, extra)]) ++ (if missing then [] else [(12%N, missing)]) ++
+  flat_map (fun es => scope_file_diff ft tf es idents types) ess.
+
+Fixpoint run_files (ft : features) (idt lft : list (bytes * bytes)) (fs : list file) : sresult (list (list entry)) :=
+  match fs with
+  | [] => SOk []
+  | f :: r => match scope_run (answer idt) (answer lft) ft f with
+              | SErr e => SErr e
+              | SOk es => match run_files ft idt lft r with SErr e => SErr e | SOk ess => SOk (es :: ess) end
+              end
+  end.
+
+(* the property oracles, on the extracted names only *)
+Definition dup_members (types : list gotype) : bool :=
+  existsb (fun t => has_dup (gt_fields t ++ map gf_name (gt_methods t)) || has_dup (map gf_name (gt_iface t))) types.
+Definition dup_params (types : list gotype) : bool :=
+  existsb (fun t => existsb (fun f => has_dup ((if gf_recv f then [] else [gf_recv f]) ++ gf_params f ++ gf_results f))
+                            (gt_iface t ++ gt_methods t)) types.
+
+Definition scope_report (c : case) : list (N * list bytes) :=
+  match c with
+  | ScopeCase ft tf idt lft files idents types =>
+    match run_files ft idt lft files with
+    | SErr EReserve => [(10%N, [])]
+    | SErr EFuel => [(9%N, [])]
+    | SOk ess => scope_dir_diff ft tf ess idents types
+    end
+  | _ => []
+  end.
+
 Definition check (c : case) : list N :=
   match c with
   | NsCase k ops outs finals =>
@@ -57,6 +263,15 @@ Definition check (c : case) : list N :=
       if exit0 then (if parse_ok then [] else [3%N]) ++ (if build_ok then [] else [4%N]) ++
                     (if N.eqb nfiles 0 then [5%N] else [])
       else []
+  | ScopeCase ft tf idt lft files idents types =>
+      (match scope_report c with
+       | [] => []
+       | (9%N, _) :: _ => [9%N]
+       | _ => [1%N]
+       end) ++
+      (if has_dup idents then [6%N] else []) ++
+      (if dup_members types then [7%N] else []) ++
+      (if dup_params types then [8%N] else [])
   end.
 
 Fixpoint mismatches_from (i : N) (cs : list case) : list (N * N) :=
